@@ -83,7 +83,7 @@ CHECKS["C16"] = dict(level="model_checking", design="5/C16",
 CHECKS["C17"] = dict(level="model_checking", design="5/C17",
    technique="explicit-state search over sessions on a real retained (Compiler, VM) pair: all sessions of <= 3 lines over a 52-line alphabet, breadth-first search with states merged on the fingerprint of compiler + VM + model environment, and crash-point enumeration (every line cut after every instruction count) with an effect-prefix oracle; every line compared with a session model built on the reference interpreter and, for all-success sessions, with eval of the concatenated text",
    text="Quick tier: 143 364 sessions (all of <= 3 lines over 52 lines covering declarations, assignments, loops, self-contained functions, heap values, parse failures, compile failures at every statement position, run-time failures after k assignments and inside nested calls), 9 079 injected failures at every instruction of every line of every session of <= 2 lines followed by ten probe lines, and a 33 705-state BFS to depth 5 over a 14-line core alphabet. The shadow heap stays on across lines (a global referring to a released box is a violation).",
-   note="trusted: refint session model (Interp::line, effect_limit), fingerprint hooks; calls to functions defined by earlier lines are outside the property; results are not released by the harness in session mode")
+   note="recorded finding KF-C17-01 (a declaration of a line that failed before the declaration completed stays declared: known_findings.jsonl, DESIGN 0.3; the check prints a KNOWN-FINDING line and exits 0); trusted: refint session model (Interp::line, effect_limit), fingerprint hooks; calls to functions defined by earlier lines are outside the property; results are not released by the harness in session mode")
 
 # families added after the first version of the table (the measured numbers are in evidence/<id>.json)
 EXTRA = {
